@@ -269,7 +269,8 @@ GEN_VARS_DRIFT = ["arch", "HOME", "MOUNTS", "multiarch", "rand", "user", "versio
 
 
 def gen_preamble(rng, i, allow_drift):
-    name = "g%d" % i
+    # (names that end like an exec mode: the later builders of the chain rewrite exec modes with regexes over the whole file)
+    name = "g%d%s" % (i, rng.choice(["", "", "", "ux", "pux", "Ux", "px", "cx"]))
     lines = ["# generated %d" % i] * rng.randint(0, 3)
     if rng.random() < 0.5:
         lines.append("abi <abi/4.0>,")
@@ -349,7 +350,10 @@ def generated(ctx, b, judge, agg):
     rng = ctx.rng
     n = 400 if ctx.tier == "quick" else 4000
     cases = [gen_preamble(rng, i, allow_drift=(i % 4 == 3)) for i in range(n)]
-    reqs = [{"id": "reg", "do": "register", "builders": ["userspace"], "root": b.root}]
+    # the builder chain of this configuration, in the order the command line registers it
+    chain = ["userspace", "hotfix"] + (["fsp"] if b.cfg.full == "full" else []) + ([b.cfg.mode] if b.cfg.mode in ("complain", "enforce") else []) + (["abi3"] if b.cfg.abi == "3" else [])
+    ctx.extra.setdefault("generated_builder_chains", {})[b.cfg.id] = chain
+    reqs = [{"id": "reg", "do": "register", "builders": chain, "root": b.root}]
     for i, (name, text, drift) in enumerate(cases):
         reqs.append({"id": i, "do": "builder", "root": b.root, "file": os.path.join(b.aad, name), "text": text})
     reps = worker.run_isolating(ctx, "prebuild", reqs, lambda r, e: None, extra_env={"DISTRIBUTION": b.cfg.dist}, timeout=900)[1:]
